@@ -233,6 +233,9 @@ package ratelimit
 //@   requires req != nil && ratesOK(tl.defaultRates)
 //@   modifies everything
 //@   ensures one_outcome: calls(tl.next.ServeHTTP) + calls(tl.errHandler.ServeHTTP) == 1
+//@   ensures {C20} writes_nothing_itself: calls(w.WriteHeader) == 0 && calls(w.Write) == 0
+//@   ensures {C20} refusal_is_the_handlers: calls(tl.errHandler.ServeHTTP) == 1 ==> callarg(tl.errHandler.ServeHTTP, 0, 0) == w && callarg(tl.errHandler.ServeHTTP, 0, 1) == req
+//@   at_call tl.next.ServeHTTP {C20} same_writer_and_request: arg0 == w && arg1 == req
 //@   ensures passed_only_if_admitted: calls(tl.next.ServeHTTP) == 1 ==> calls(consumeRates) == 1 && callres(consumeRates, 0, 0) == nil
 //@   ensures refused_gets_the_limiter_error: calls(consumeRates) == 1 && callres(consumeRates, 0, 0) != nil ==> calls(tl.errHandler.ServeHTTP) == 1 && callarg(tl.errHandler.ServeHTTP, 0, 2) == callres(consumeRates, 0, 0)
 
